@@ -19,7 +19,7 @@ FUNCTIONS = ['SubsequenceAlignment.__init__/align/_compute_matching/best_match/k
              'matching_function_bestpath/startpoint/endpoint', 'dtw.warping_paths, dtw.best_path (penalty in internal representation)',
              'dd_dtw.c dtw_warping_paths with psi=(0,0,len,len) (no window: the compact matrix is the full matrix)']
 BOUNDS = {'quick': {'|query|': '1..2', '|series|': '1..4', 'penalty': 'symbolic >= 0', 'k': '2, None', 'overlap': '0,1', 'minlength': '1,2', 'maxlength': 'None,2'},
-          'thorough': {'|query|': '1..3', '|series|': '1..5', 'penalty': 'symbolic >= 0', 'k': '1..3, None', 'overlap': '0,1,2', 'minlength': '1,2,3', 'maxlength': 'None,2,3'}}
+          'thorough': {'|query|': '1..3', '|series|': '1..5', 'penalty': 'symbolic >= 0', 'k-best': '|query|*|series| <= 8; k 1..3, None, overlap 0..2, minlength 1..3, maxlength None,2,3 (quick option grid for |query|+|series| >= 6)'}}
 OUTSIDE = ['best_matches_knee (EWMA heuristic), max_rangefactor', 'multivariate series', 'the Cython glue of the C engine', 'floating point rounding']
 ASSUMPTIONS = ['np.ceil(max + 1) (the "used" marker) modelled as any value in [max+1, max+2)', 'oracle: min over start points of spec_dtw(query, series[b..e])',
                'SQ/SQRT abstractions with pairwise lemmas']
@@ -45,14 +45,15 @@ def tasks(tier, seed):
             ts.append({'harness': 'c-matrix', 'ql': ql, 'sl': sl, 'est': ql * sl * 3})
             if ql * sl <= (8 if tier == 'quick' else 12):
                 ts.append({'harness': 'best', 'ql': ql, 'sl': sl, 'est': 3 ** (ql + sl)})
-            if ql * sl <= (6 if tier == 'quick' else 10) and sl >= 2:
-                overlaps = (0, 1) if tier == 'quick' else (0, 1, 2)
-                mins = (1, 2) if tier == 'quick' else (1, 2, 3)
-                maxs = (None, 2) if tier == 'quick' else (None, 2, 3)
+            if ql * sl <= (6 if tier == 'quick' else 8) and sl >= 2:
+                small = tier == 'quick' or ql + sl >= 6        # the largest thorough sizes use the quick option grid
+                overlaps = (0, 1) if small else (0, 1, 2)
+                mins = (1, 2) if small else (1, 2, 3)
+                maxs = (None, 2) if small else (None, 2, 3)
                 for ov in overlaps:
                     for mn in mins:
                         for mx in maxs:
-                            for k in ((2, None) if tier == 'quick' else (1, 2, 3, None)):
+                            for k in ((2, None) if small else (1, 2, 3, None)):
                                 ts.append({'harness': 'kbest', 'ql': ql, 'sl': sl, 'k': k, 'overlap': ov, 'minlength': mn, 'maxlength': mx,
                                            'est': 4 ** (ql + sl)})
     for t in ts:
